@@ -1,8 +1,8 @@
 #!/bin/bash
 # Evaluates a seeded defect against the shuttle engine of C17 without touching /repo:
-#   ./mutcheck_shuttle.sh <patch.diff> [tier]
+#   ./mutcheck_shuttle.sh <patch.diff> [tier] [vote-shuttle|report-shuttle]
 set -u
-PATCH="$1"; TIER="${2:-quick}"
+PATCH="$1"; TIER="${2:-quick}"; BIN="${3:-vote-shuttle}"
 MR=/tmp/mutrepoS; MS=/tmp/mutshuttle
 [ -d $MR ] || git -C /repo worktree add -q --detach $MR HEAD
 git -C $MR checkout -q -- . && git -C $MR checkout -q --detach $(git -C /repo rev-parse HEAD)
@@ -12,6 +12,6 @@ rsync -a --delete --exclude target /verif/shuttle/ $MS/shuttle/
 grep -rl '/repo/' $MS/shuttle/Cargo.toml $MS/shuttle/src | xargs sed -i "s#\"/repo/#\"$MR/#g"
 ( cd $MS/shuttle && CARGO_TARGET_DIR=$MS/target cargo build --release --offline 2>&1 | grep -E "^error" -A8 | head -30 )
 mkdir -p $MS/out
-VERIF_ROOT=$MS/out $MS/target/release/vote-shuttle "$TIER" 2>&1 | cut -c1-400
+VERIF_ROOT=$MS/out $MS/target/release/$BIN "$TIER" 2>&1 | cut -c1-400
 echo "exit=${PIPESTATUS[0]}"
 git -C $MR checkout -q -- .
